@@ -399,9 +399,90 @@ def client_checks(ctx):
     ctx.sample({"client_schema": schema, "styles": "all positional/keyword splits, dict and factory object (unwrap=False)"})
 
 
+def rpc_and_ports(ctx):
+    """(C) the two binding-level sites around the parser: rpc operations bind positional and keyword values alike
+    (None included), and same-named operations of two ports are each bound against their own parameters."""
+    import itertools
+    # rpc/literal operation with three parts
+    w = wsdlkit.wsdl_doc("", style="rpc", in_parts=[("a", "type", "xsd:string"), ("b", "type", "xsd:string"),
+                                                    ("c", "type", "xsd:string")],
+                         out_parts=[("return", "type", "xsd:string")])
+    c = wsdlkit.client(w, nosend=True)
+    def body(env):
+        root = xmlread.parse(env)
+        b = xmlread.find1(root, "Body", xmlread.ENV11)
+        return [[k["name"][1], k.get("text", "")] for k in b["children"][0]["children"]]
+    for vals in itertools.product([None, "x", ""], repeat=3):
+        expected = [[n, v] for n, v in zip("abc", vals) if v is not None]
+        names = "abc"
+        for split in range(4):
+            pos = list(vals[:split])
+            kw = {names[i]: vals[i] for i in range(split, 3) if vals[i] is not None or ctx.rng.random() < 0.5}
+            meta = {"rpc": True, "positional": pos, "keywords": kw}
+            ctx.case(common.canon(meta), None in vals)
+            ctx.dist["rpc calls"] += 1
+            try:
+                got = body(wsdlkit.envelope_bytes(c.service.f(*pos, **kw)))
+            except Exception as e:
+                got = "%s: %s" % (type(e).__name__, e)
+            if got != expected:
+                ctx.fail("an rpc call does not carry exactly the values passed, by position or by keyword", meta, got,
+                         expected)
+    # two ports of one service, same operation name, different inputs
+    schema = ('<xsd:element name="W1"><xsd:complexType><xsd:sequence><xsd:element name="a" type="xsd:int"/>'
+              '<xsd:element name="b" type="xsd:int"/></xsd:sequence></xsd:complexType></xsd:element>'
+              '<xsd:element name="W2"><xsd:complexType><xsd:sequence><xsd:element name="x" type="xsd:string"/>'
+              '</xsd:sequence></xsd:complexType></xsd:element>')
+    wsdl = ('<?xml version="1.0"?><wsdl:definitions targetNamespace="urn:w" xmlns:wsdl="http://schemas.xmlsoap.org/wsdl/" '
+            'xmlns:w="urn:w" xmlns:t="%s" xmlns:soap="http://schemas.xmlsoap.org/wsdl/soap/" '
+            'xmlns:xsd="http://www.w3.org/2001/XMLSchema"><wsdl:types><xsd:schema targetNamespace="%s" '
+            'elementFormDefault="qualified">%s</xsd:schema></wsdl:types>'
+            '<wsdl:message name="m1"><wsdl:part name="parameters" element="t:W1"/></wsdl:message>'
+            '<wsdl:message name="m2"><wsdl:part name="parameters" element="t:W2"/></wsdl:message>'
+            '<wsdl:portType name="PT1"><wsdl:operation name="f"><wsdl:input message="w:m1"/></wsdl:operation></wsdl:portType>'
+            '<wsdl:portType name="PT2"><wsdl:operation name="f"><wsdl:input message="w:m2"/></wsdl:operation></wsdl:portType>'
+            % (wsdlkit.TNS, wsdlkit.TNS, schema))
+    for n in (1, 2):
+        wsdl += ('<wsdl:binding name="B%d" type="w:PT%d"><soap:binding style="document" '
+                 'transport="http://schemas.xmlsoap.org/soap/http"/><wsdl:operation name="f"><soap:operation '
+                 'soapAction="f%d"/><wsdl:input><soap:body use="literal"/></wsdl:input></wsdl:operation></wsdl:binding>'
+                 % (n, n, n))
+    wsdl += ('<wsdl:service name="S"><wsdl:port name="one" binding="w:B1"><soap:address location="http://x.invalid/1"/>'
+             '</wsdl:port><wsdl:port name="two" binding="w:B2"><soap:address location="http://x.invalid/2"/></wsdl:port>'
+             '</wsdl:service></wsdl:definitions>')
+    for order in (("one", "two"), ("two", "one")):
+        c = wsdlkit.client(wsdl.encode(), nosend=True)
+        for port in order:
+            good = ((1, 2), {}) if port == "one" else (("s",), {})
+            bad = (("s",), {"x": "t"}) if port == "one" else ((1, 2), {})
+            meta = {"ports": True, "order": list(order), "port": port}
+            ctx.case(common.canon(meta), True)
+            ctx.dist["same-named operations on two ports"] += 1
+            try:
+                env = wsdlkit.envelope_bytes(c.service[port].f(*good[0], **good[1]))
+                root = xmlread.parse(env)
+                b = xmlread.find1(root, "Body", xmlread.ENV11)
+                got = [b["children"][0]["name"][1]] + [k["name"][1] for k in b["children"][0]["children"]]
+            except Exception as e:
+                got = "%s: %s" % (type(e).__name__, e)
+            want = ["W1", "a", "b"] if port == "one" else ["W2", "x"]
+            if got != want:
+                ctx.fail("an operation is bound against another port's same-named operation", meta, got, want)
+            try:
+                c.service[port].f(*bad[0], **bad[1])
+                ctx.fail("arguments of the other port's same-named operation were accepted", meta, "accepted",
+                         "TypeError")
+            except TypeError:
+                pass
+            except Exception as e:
+                ctx.fail("wrong arguments raised something other than TypeError", meta,
+                         "%s: %s" % (type(e).__name__, e), "TypeError")
+
+
 def run(ctx):
     parser_correspondence(ctx)
     client_checks(ctx)
+    rpc_and_ports(ctx)
 
 
 def widen(ctx):
